@@ -718,10 +718,41 @@ class DataflowTransactionContext(ABC):  # pylint: disable=too-few-public-methods
             and len(block.called_subroutine.retsub_blocks) != 0
         ):
             # this block is the `callsub block` and `block.sub_return_point` is the block that will be executed after subroutine.
+            # The execution continues at the return point unless it ends inside the called subroutine.
             livein_information = self._intersection(
-                key, livein_information, liveout[block.sub_return_point]
+                key,
+                livein_information,
+                self._union(
+                    key,
+                    liveout[block.sub_return_point],
+                    self._exit_information(key, block, liveout),
+                ),
             )
         return livein_information
+
+    def _exit_information(
+        self, key: str, callsub_block: "BasicBlock", liveout: Dict["BasicBlock", Any]
+    ) -> Any:
+        """Values with which the execution can end (`return`) inside the subroutine called by the block.
+
+        Args:
+            key: The analysis key.
+            callsub_block: A block ending with the callsub instruction.
+            liveout: liveout information of the blocks.
+
+        Returns:
+            union of the liveout information of the leaf blocks of the called subroutine and of the
+            subroutines called by it.
+        """
+        exit_information = self._null_set(key)
+        subroutines = [callsub_block.called_subroutine]
+        for subroutine in subroutines:
+            for bi in subroutine.blocks:
+                if leaf_block_global(bi):
+                    exit_information = self._union(key, exit_information, liveout[bi])
+                elif bi.is_callsub_block and bi.called_subroutine not in subroutines:
+                    subroutines.append(bi.called_subroutine)
+        return exit_information
 
     def _merge_information_backward(
         self,
